@@ -1,0 +1,70 @@
+//! Verification hooks (compiled only with `--cfg sozu_verif`).
+//!
+//! A process-global event sink that a verification harness may install
+//! before starting a worker. With no sink installed `emit` is a single
+//! relaxed atomic load. Nothing in this module exists in normal builds.
+
+use std::sync::{
+    Mutex,
+    atomic::{AtomicBool, Ordering},
+};
+
+/// One hook event. `thread` is the name of the emitting thread (the worker
+/// threads are single-threaded event loops, so per-thread emission order is
+/// execution order).
+#[derive(Clone, Debug)]
+pub struct Event {
+    pub kind: &'static str,
+    pub thread: String,
+    pub nums: Vec<(&'static str, i64)>,
+    pub strs: Vec<(&'static str, String)>,
+}
+
+type Sink = Box<dyn FnMut(Event) + Send>;
+
+static ENABLED: AtomicBool = AtomicBool::new(false);
+static SINK: Mutex<Option<Sink>> = Mutex::new(None);
+
+/// Install the sink (replaces a previous one).
+pub fn install(sink: Sink) {
+    let mut guard = SINK.lock().unwrap_or_else(|e| e.into_inner());
+    *guard = Some(sink);
+    ENABLED.store(true, Ordering::SeqCst);
+}
+
+/// Remove the sink.
+pub fn uninstall() {
+    let mut guard = SINK.lock().unwrap_or_else(|e| e.into_inner());
+    ENABLED.store(false, Ordering::SeqCst);
+    *guard = None;
+}
+
+#[inline]
+pub fn enabled() -> bool {
+    ENABLED.load(Ordering::Relaxed)
+}
+
+/// Emit an event with numeric fields only.
+#[inline]
+pub fn emit(kind: &'static str, nums: &[(&'static str, i64)]) {
+    if enabled() {
+        emit_s(kind, nums, &[]);
+    }
+}
+
+/// Emit an event with numeric and string fields.
+pub fn emit_s(kind: &'static str, nums: &[(&'static str, i64)], strs: &[(&'static str, String)]) {
+    if !enabled() {
+        return;
+    }
+    let event = Event {
+        kind,
+        thread: std::thread::current().name().unwrap_or("").to_owned(),
+        nums: nums.to_vec(),
+        strs: strs.to_vec(),
+    };
+    let mut guard = SINK.lock().unwrap_or_else(|e| e.into_inner());
+    if let Some(sink) = guard.as_mut() {
+        sink(event);
+    }
+}
